@@ -343,8 +343,15 @@ Lemma eff_Forall c (P : bytes * value -> Prop) vals : Forall P vals -> Forall P 
 Proof. intro H. rewrite Forall_forall in *. intros kv Hk. apply eff_in in Hk. apply H. tauto. Qed.
 
 (** a value that does not arrive through record_debug, or a name without the `log.` prefix, is never skipped *)
+(** per `record_*` method, as read off the source: only record_debug strips `r#` / skips `log.*` (these two do not compile
+    on a tree where a typed method does, e.g. after moving the special cases into a shared key() helper) *)
+Lemma strips_raw_is_via_debug v : strips_raw v = via_debug v.
+Proof. destruct v; reflexivity. Qed.
+Lemma skips_log_is_via_debug v : skips_log v = via_debug v.
+Proof. destruct v; reflexivity. Qed.
+
 Lemma log_skipped_typed c k v : via_debug v = false -> log_skipped c (k, v) = false.
-Proof. intro H. unfold log_skipped. simpl. rewrite H. rewrite andb_false_r. reflexivity. Qed.
+Proof. intro H. unfold log_skipped. simpl. rewrite skips_log_is_via_debug, H. rewrite andb_false_r. reflexivity. Qed.
 Lemma log_skipped_prefix c k v : has_prefix (bs "log.") k = false -> log_skipped c (k, v) = false.
 Proof. intro H. unfold log_skipped. simpl. rewrite H. rewrite andb_false_r. reflexivity. Qed.
 
